@@ -1,7 +1,6 @@
 package task
 
 import (
-	"context"
 	"io"
 	"os"
 	"path/filepath"
@@ -69,13 +68,20 @@ type (
 		concurrencySemaphore chan struct{}
 		taskCallCount        map[string]*int32
 		mkdirMutexMap        map[string]*sync.Mutex
-		executionHashes      map[string]context.Context
+		executionHashes      map[string]*execution
 		executionHashesMutex sync.Mutex
 		watchedDirs          *xsync.MapOf[string, bool]
 	}
 	TempDir struct {
 		Remote      string
 		Fingerprint string
+	}
+	// execution is the single real execution of a deduplicated task
+	// (run: once / when_changed). Callers that find one in progress wait for
+	// done to be closed and then observe its outcome in err.
+	execution struct {
+		done chan struct{}
+		err  error
 	}
 )
 
@@ -97,7 +103,7 @@ func NewExecutor(opts ...ExecutorOption) *Executor {
 		concurrencySemaphore: nil,
 		taskCallCount:        map[string]*int32{},
 		mkdirMutexMap:        map[string]*sync.Mutex{},
-		executionHashes:      map[string]context.Context{},
+		executionHashes:      map[string]*execution{},
 		executionHashesMutex: sync.Mutex{},
 	}
 	e.Options(opts...)
